@@ -183,3 +183,191 @@ pub proof fn lemma_store_zeros_nf(t: St, mb: Register, k: int)
         lemma_st_eq(store_zeros_effect(nf(t), mb, k - 1), nf(store_zeros_effect(t, mb, k - 1)));
     }
 }
+
+// ---- objects of any size: linked blocks --------------------------------------------------------------
+
+/// effect of `store_fields` on a flag-free state `t`: the bindings `bs` (environment positions rem ..) are
+/// stored right to left into a chain of blocks - at most 3 values in the last block, 2 values and the link to
+/// the previously filled block in every other one; every filled block is `HEAP` (X0), and after filling it a
+/// new block is acquired into the first temporary after the variables still to be stored. An empty object is
+/// marked by a null pointer. Every intermediate state is flag-free (`nf`).
+pub open spec fn store_fields_effect(t: St, bs: Seq<ContextBinding>, rem: int, last: bool) -> St
+    decreases bs.len(),
+{
+    let n = bs.len() as int;
+    if n == 0 {
+        if last { nf(set(t, tfp(2 * rem), 0)) } else { t }
+    } else {
+        let t1 = if !last { nf(store_field_effect(t, tfp(2 * (rem + n)), Register::X(0), 48int)) } else { t };
+        let cap = if last { 3int } else { 2int };
+        let rest = if n <= cap { 0int } else { n - cap };
+        let t2 = nf(store_values_effect(t1, bs.subrange(rest, n), rem + rest, Register::X(0), cap));
+        let t3 = nf(acquire_effect(t2, tfp(2 * (rem + rest))));
+        store_fields_effect(t3, bs.subrange(0, rest), rem, false)
+    }
+}
+
+/// does `load_fields` leave the "scratch register evacuated" flag set? (state-independent)
+pub open spec fn load_fields_rf(n: int, ex: int, last: bool, rf: bool) -> bool
+    decreases n,
+{
+    if n <= 0 { rf } else {
+        let cap = if last { 3int } else { 2int };
+        let rest = if n <= cap { 0int } else { n - cap };
+        let rfa = load_fields_rf(rest, ex, false, rf);
+        if tfp(2 * (ex + rest)) is Spill { true } else { rfa }
+    }
+}
+
+/// effect of `load_fields` on a flag-free state `t`: the chain of blocks is walked first to last; the pointer
+/// to the block holding the values `bs[rest..n]` is in the first temporary after the variables loaded before;
+/// a spilled block pointer is worked on in X10, which is evacuated to the reserved spill slot 0 the first time
+/// this happens (`rf` tells whether it already happened) and restored after the last block. A block is put on
+/// the reusable free list before its fields are read iff the object is not shared (`!share`).
+pub open spec fn load_fields_effect(t: St, bs: Seq<ContextBinding>, ex: int, last: bool, share: bool, rf: bool) -> St
+    decreases bs.len(),
+{
+    let n = bs.len() as int;
+    if n == 0 { t } else {
+        let cap = if last { 3int } else { 2int };
+        let rest = if n <= cap { 0int } else { n - cap };
+        let ta = load_fields_effect(t, bs.subrange(0, rest), ex, false, share, rf);
+        let rfa = load_fields_rf(rest, ex, false, rf);
+        let next = bs.subrange(rest, n);
+        match tfp(2 * (ex + rest)) {
+            Temporary::Register(r) => {
+                let t1 = if !share { nf(release_effect(ta, rd(ta, r))) } else { ta };
+                let t2 = if !last { nf(load_field_effect(t1, tfp(2 * (ex + n)), r, 48int)) } else { t1 };
+                nf(load_values_iter(t2, next, ex + rest, r, cap, share, next.len() as int))
+            },
+            Temporary::Spill(k) => {
+                let r = Register::X(10);
+                let tb = if !rfa { St { mem: ta.mem.insert(slot_addr(ta, 0), ta.regs[10]), ..ta } } else { ta };
+                let tc = wr(tb, r, tb.mem[slot_addr(tb, k.0 as int)]);
+                let t1 = if !share { nf(release_effect(tc, rd(tc, r))) } else { tc };
+                let t2 = if !last { nf(load_field_effect(t1, tfp(2 * (ex + n)), r, 48int)) } else { t1 };
+                let t3 = nf(load_values_iter(t2, next, ex + rest, r, cap, share, next.len() as int));
+                if last { wr(t3, r, t3.mem[slot_addr(t3, 0)]) } else { t3 }
+            },
+        }
+    }
+}
+
+/// effect of `Memory::load` once the pointer to the first block is in register `mb` and its reference count
+/// in X3: the count decides between taking the object apart (count 0: blocks released, children moved) and
+/// copying it (count > 0: count decremented, children shared)
+pub open spec fn load_register_effect(t: St, mb: Register, bs: Seq<ContextBinding>, ex: int) -> St {
+    let c = t.regs[3];
+    if c == 0 {
+        load_fields_effect(t, bs, ex, true, false, false)
+    } else {
+        let c1 = wsub(c, i2u(1i64));
+        load_fields_effect(nf(St { regs: t.regs.insert(3, c1), mem: t.mem.insert(rd(t, mb) as int, c1), ..t }), bs, ex, true, true, false)
+    }
+}
+
+pub open spec fn load_effect(t: St, bs: Seq<ContextBinding>, ex: int) -> St {
+    if bs.len() == 0 { t } else {
+        match tfp(2 * ex) {
+            Temporary::Register(r) => load_register_effect(wr(t, Register::X(3), t.mem[rd(t, r) as int]), r, bs, ex),
+            Temporary::Spill(k) => {
+                let t1 = wr(t, Register::X(2), t.mem[slot_addr(t, k.0 as int)]);
+                let t2 = wr(t1, Register::X(3), t1.mem[rd(t1, Register::X(2)) as int]);
+                load_register_effect(t2, Register::X(2), bs, ex)
+            },
+        }
+    }
+}
+
+// ---- none of the memory effects moves the stack pointer (needed to carry the alignment hypothesis) -------
+pub proof fn lemma_erase_fields_sp(t: St, r: Register, k: int)
+    ensures erase_fields_spec(t, r, k).sp == t.sp,
+    decreases k,
+{
+    if k > 0 { lemma_erase_fields_sp(t, r, k - 1); }
+}
+
+pub proof fn lemma_acquire_sp(t0: St, new_block: Temporary)
+    requires var_tmp(new_block),
+    ensures acquire_effect(t0, new_block).sp == t0.sp,
+{
+    let h0 = t0.regs[0];
+    let t1 = if new_block is Spill { set(St { regs: t0.regs.insert(2, h0), ..t0 }, new_block, h0) } else { set(t0, new_block, h0) };
+    let next = t1.mem[t1.regs[0] as int];
+    let t2 = St { regs: t1.regs.insert(0, next), ..t1 };
+    let f0 = t2.regs[1];
+    let link = t2.mem[f0 as int];
+    let t3 = St { regs: t2.regs.insert(0, f0).insert(1, link), ..t2 };
+    lemma_erase_fields_sp(St { mem: t3.mem.insert(f0 as int, 0), ..t3 }, Register::X(0), 3);
+}
+
+pub proof fn lemma_store_values_iter_sp(t: St, bs: Seq<ContextBinding>, rem: int, mb: Register, ff: int, i: int)
+    ensures store_values_iter(t, bs, rem, mb, ff, i).sp == t.sp,
+    decreases i,
+{
+    if i > 0 { lemma_store_values_iter_sp(t, bs, rem, mb, ff, i - 1); }
+}
+
+pub proof fn lemma_store_values_sp(t: St, bs: Seq<ContextBinding>, rem: int, mb: Register, ff: int)
+    ensures store_values_effect(t, bs, rem, mb, ff).sp == t.sp,
+{
+    lemma_store_values_iter_sp(t, bs, rem, mb, ff, bs.len() as int);
+    lemma_store_zeros_nf(store_values_iter(t, bs, rem, mb, ff, bs.len() as int), mb, ff - bs.len());
+}
+
+pub proof fn lemma_load_values_iter_sp(t: St, bs: Seq<ContextBinding>, ex: int, mb: Register, ff: int, share: bool, i: int)
+    requires 0 <= ex,
+    ensures load_values_iter(t, bs, ex, mb, ff, share, i).sp == t.sp,
+    decreases i,
+{
+    if i > 0 { lemma_load_values_iter_sp(t, bs, ex, mb, ff, share, i - 1); }
+}
+
+pub proof fn lemma_store_fields_sp(t: St, bs: Seq<ContextBinding>, rem: int, last: bool)
+    requires 0 <= rem, 2 * (rem + bs.len()) + 1 < 281,
+    ensures store_fields_effect(t, bs, rem, last).sp == t.sp,
+    decreases bs.len(),
+{
+    let n = bs.len() as int;
+    if n > 0 {
+        let t1 = if !last { nf(store_field_effect(t, tfp(2 * (rem + n)), Register::X(0), 48int)) } else { t };
+        let cap = if last { 3int } else { 2int };
+        let rest = if n <= cap { 0int } else { n - cap };
+        lemma_store_values_sp(t1, bs.subrange(rest, n), rem + rest, Register::X(0), cap);
+        let t2 = nf(store_values_effect(t1, bs.subrange(rest, n), rem + rest, Register::X(0), cap));
+        lemma_acquire_sp(t2, tfp(2 * (rem + rest)));
+        let t3 = nf(acquire_effect(t2, tfp(2 * (rem + rest))));
+        lemma_store_fields_sp(t3, bs.subrange(0, rest), rem, false);
+    }
+}
+
+pub proof fn lemma_load_fields_sp(t: St, bs: Seq<ContextBinding>, ex: int, last: bool, share: bool, rf: bool)
+    requires 0 <= ex,
+    ensures load_fields_effect(t, bs, ex, last, share, rf).sp == t.sp,
+    decreases bs.len(),
+{
+    let n = bs.len() as int;
+    if n > 0 {
+        let cap = if last { 3int } else { 2int };
+        let rest = if n <= cap { 0int } else { n - cap };
+        lemma_load_fields_sp(t, bs.subrange(0, rest), ex, false, share, rf);
+        let ta = load_fields_effect(t, bs.subrange(0, rest), ex, false, share, rf);
+        let rfa = load_fields_rf(rest, ex, false, rf);
+        let next = bs.subrange(rest, n);
+        match tfp(2 * (ex + rest)) {
+            Temporary::Register(r) => {
+                let t1 = if !share { nf(release_effect(ta, rd(ta, r))) } else { ta };
+                let t2 = if !last { nf(load_field_effect(t1, tfp(2 * (ex + n)), r, 48int)) } else { t1 };
+                lemma_load_values_iter_sp(t2, next, ex + rest, r, cap, share, next.len() as int);
+            },
+            Temporary::Spill(k) => {
+                let r = Register::X(10);
+                let tb = if !rfa { St { mem: ta.mem.insert(slot_addr(ta, 0), ta.regs[10]), ..ta } } else { ta };
+                let tc = wr(tb, r, tb.mem[slot_addr(tb, k.0 as int)]);
+                let t1 = if !share { nf(release_effect(tc, rd(tc, r))) } else { tc };
+                let t2 = if !last { nf(load_field_effect(t1, tfp(2 * (ex + n)), r, 48int)) } else { t1 };
+                lemma_load_values_iter_sp(t2, next, ex + rest, r, cap, share, next.len() as int);
+            },
+        }
+    }
+}
